@@ -78,8 +78,19 @@ func genC05(seed uint64, withSpec bool) *Scenario {
 	coeRun := r.Chance(300) // runs exercising the package-level option setter
 	uid := uint32(0)
 	bp := func(b bool) *bool { return &b }
+	// swarm knob: more distinct patterns than any plausible bound of the regexp cache (eviction paths of a bounded cache)
+	flood := 0
+	if !big && !withSpec && r.Chance(50) {
+		flood = pick(r, []int{80, 150, 300})
+	}
 	for t := 0; t < ntasks; t++ {
 		var ops []Op
+		if flood > 0 && t < 2 {
+			for i := 0; i < flood/2; i++ {
+				uid++
+				ops = append(ops, Op{UID: uid, Kind: KPattern, Path: "p", Pattern: fmt.Sprintf("^x{%d}y%d$", i%7+1, i*2+t), Str: "xy1", Role: "fill"})
+			}
+		}
 		nops := r.Range(1, 4)
 		if big {
 			nops = 1
